@@ -428,6 +428,9 @@ func caseMix(r *fw.Rand, ext string) string {
 
 func c07Run(c *fw.Ctx) fw.Outcome {
 	r := c.R
+	if c.Idx >= tierN(c.Tier, 42*7, 42*70) {
+		return c07Pages(c)
+	}
 	pairs := len(c07Sources) * len(c07Dests)
 	pi := int(c.Idx) % pairs
 	src, dst := c07Sources[pi/len(c07Dests)], c07Dests[pi%len(c07Dests)]
@@ -652,6 +655,182 @@ func c07Run(c *fw.Ctx) fw.Outcome {
 	return fw.OK(key, map[string]interface{}{"conversion": desc, "cues": fmtNeutral(cues)})
 }
 
+// ttxTwoPageStream interleaves the instances of two subtitle pages (page A is transmitted first); every cue list is
+// contiguous and both end with a header-only instance. Times are relative to the first presentation time.
+func ttxTwoPageStream(r *fw.Rand, a, b []ncue) (data []byte, pageA, pageB int) {
+	w := newTSWriter()
+	tpid, pmtPID := uint16(0x200), uint16(0x100)
+	magA, pA := r.Range(1, 8), r.Intn(100)
+	magB, pB := r.Range(1, 8), r.Intn(100)
+	for magB == magA && pB == pA {
+		pB = r.Intn(100)
+	}
+	tables := func() {
+		w.payloadUnit(0, patSection([][2]uint16{{1, pmtPID}}), true)
+		w.payloadUnit(pmtPID, pmtSection(1, 0x1ff0, []pmtStream{{0x06, tpid, teletextDescriptor(0x56, magA, pA)}}), true)
+	}
+	tables()
+	tables()
+	type ev struct {
+		t     int64
+		mag   int
+		page  int
+		lines []string
+		erase bool
+	}
+	var evs []ev
+	for _, l := range []struct {
+		cues      []ncue
+		mag, page int
+	}{{a, magA, pA}, {b, magB, pB}} {
+		for _, c := range l.cues {
+			evs = append(evs, ev{t: c.S, mag: l.mag, page: l.page, lines: c.Lines})
+		}
+		evs = append(evs, ev{t: l.cues[len(l.cues)-1].E, mag: l.mag, page: l.page, erase: true})
+	}
+	sort.SliceStable(evs, func(i, j int) bool { return evs[i].t < evs[j].t })
+	for _, e := range evs {
+		payload := append([]byte{0x10}, ttxUnit(0x03, 0xe4, e.mag, 0, ttxHeader(e.page, ttxHeaderFlags{subtitle: true, serial: true, erase: e.erase}))...)
+		for li, l := range e.lines {
+			var cells [40]byte
+			for i := range cells {
+				cells[i] = oddParity(' ')
+			}
+			cells[0], cells[1] = oddParity(0x0b), oddParity(0x0b)
+			pos := 2
+			for _, ch := range l {
+				if pos < 38 {
+					cells[pos] = oddParity(byte(ch))
+					pos++
+				}
+			}
+			cells[pos] = oddParity(0x0a)
+			payload = append(payload, ttxUnit(0x03, 0xe4, e.mag, 20+li, cells)...)
+		}
+		w.payloadUnit(tpid, pesPacket(0xbd, 900+e.t/1e6*90, true, payload), false)
+	}
+	return w.buf.Bytes(), magA*100 + pA, magB*100 + pB
+}
+
+// c07Pages: the teletext page option through the library (Options.Teletext.Page) and the CLI (-p), for convert and merge
+func c07Pages(c *fw.Ctx) fw.Outcome {
+	r := c.R
+	a := c07GenNeutral(r, "ts", "srt", true)
+	b := c07GenNeutral(r, "ts", "srt", true)
+	// page A starts first: times are relative to its first instance
+	base := a[0].S
+	if b[0].S <= base {
+		d := base - b[0].S + 200e6
+		for k := range b {
+			b[k].S, b[k].E = b[k].S+d, b[k].E+d
+		}
+	}
+	for _, l := range [][]ncue{a, b} {
+		for k := range l {
+			l[k].S, l[k].E = l[k].S-base, l[k].E-base
+		}
+	}
+	// no two instances at the same instant
+	used := map[int64]bool{}
+	for _, l := range [][]ncue{a, b} {
+		for _, cu := range l {
+			if used[cu.S] {
+				return fw.Skip()
+			}
+			used[cu.S] = true
+		}
+	}
+	if used[a[len(a)-1].E] || used[b[len(b)-1].E] || a[len(a)-1].E == b[len(b)-1].E {
+		return fw.Skip()
+	}
+	data, pageA, pageB := ttxTwoPageStream(r, a, b)
+	dir := c.TmpDir()
+	in := filepath.Join(dir, "two.ts")
+	out := filepath.Join(dir, "pages."+fw.Pick(r, []string{"srt", "vtt", "ttml"}))
+	os.WriteFile(in, data, 0o644)
+	inCopy := filepath.Join(dir, "two-copy.ts") // (the CLI's -i flag drops a repeated value)
+	os.WriteFile(inCopy, data, 0o644)
+	os.Remove(out)
+	key := fw.Mix(fw.HashBytes(data), 0x9a9e)
+	same := func(exp []ncue, got *astisub.Subtitles, what string) *fw.Outcome {
+		if len(got.Items) != len(exp) {
+			o := fw.Bad(key, fmt.Sprintf("%x", data), "%s: %d cues, the selected page transmitted %d (%s)", what, len(got.Items), len(exp), fmtNeutral(exp))
+			return &o
+		}
+		for k, e := range exp {
+			it := got.Items[k]
+			var t []string
+			for _, l := range it.Lines {
+				var s string
+				for _, li := range l.Items {
+					s += li.Text
+				}
+				t = append(t, stripWS(s))
+			}
+			var el []string
+			for _, l := range e.Lines {
+				el = append(el, stripWS(l))
+			}
+			if int64(it.StartAt)/1e6 != e.S/1e6 || int64(it.EndAt)/1e6 != e.E/1e6 || strings.Join(t, "|") != strings.Join(el, "|") {
+				o := fw.Bad(key, fmt.Sprintf("%x", data), "%s: cue %d is [%v,%v) %q, the selected page transmitted [%v,%v) %q", what, k, it.StartAt, it.EndAt, strings.Join(t, "|"), time.Duration(e.S), time.Duration(e.E), strings.Join(el, "|"))
+				return &o
+			}
+		}
+		return nil
+	}
+	for _, sel := range []struct {
+		page int
+		exp  []ncue
+	}{{0, a}, {pageA, a}, {pageB, b}} {
+		var got *astisub.Subtitles
+		var err error
+		if p := guard(func() {
+			got, err = astisub.Open(astisub.Options{Filename: in, Teletext: astisub.TeletextOptions{Page: sel.page}})
+		}); p != "" || err != nil {
+			return fw.Bad(key, fmt.Sprintf("%x", data), "Open with teletext page %d failed: %v %s", sel.page, err, p)
+		}
+		if o := same(sel.exp, got, fmt.Sprintf("Open with teletext page %d (pages %d then %d in the stream)", sel.page, pageA, pageB)); o != nil {
+			return *o
+		}
+		if !haveCLI() {
+			continue
+		}
+		os.Remove(out)
+		args := []string{"convert", "-i", in, "-o", out}
+		if sel.page != 0 {
+			args = append(args, "-p", fmt.Sprint(sel.page))
+		}
+		if msg, err := cli(args...); err != nil {
+			return fw.Bad(key, fmt.Sprintf("%x", data), "CLI %v failed: %v %s", args, err, msg)
+		}
+		if got, err = astisub.OpenFile(out); err != nil {
+			return fw.Bad(key, fmt.Sprintf("%x", data), "CLI %v: output unreadable: %v", args, err)
+		}
+		if o := same(sel.exp, got, fmt.Sprintf("CLI convert -p %d", sel.page)); o != nil {
+			return *o
+		}
+		// merge: both inputs are read with the selected page
+		os.Remove(out)
+		args = []string{"merge", "-i", in, "-i", inCopy, "-o", out}
+		if sel.page != 0 {
+			args = append(args, "-p", fmt.Sprint(sel.page))
+		}
+		if msg, err := cli(args...); err != nil {
+			return fw.Bad(key, fmt.Sprintf("%x", data), "CLI %v failed: %v %s", args, err, msg)
+		}
+		if got, err = astisub.OpenFile(out); err != nil {
+			return fw.Bad(key, fmt.Sprintf("%x", data), "CLI %v: output unreadable: %v", args, err)
+		}
+		twice := c07ApplySpec(sel.exp, sel.exp, c07Op{Name: "merge"})
+		if o := same(twice, got, fmt.Sprintf("CLI merge of the stream with itself, -p %d", sel.page)); o != nil {
+			return *o
+		}
+		c.Count("cli_page_option_runs", 2)
+	}
+	c.Feature("teletext page option")
+	return fw.OK(key, map[string]interface{}{"kind": "two subtitle pages in one stream", "pages": []int{pageA, pageB}, "page_a": fmtNeutral(a), "page_b": fmtNeutral(b)})
+}
+
 func fmtNeutral(cs []ncue) string {
 	var s []string
 	for _, c := range cs {
@@ -664,9 +843,9 @@ func init() {
 	fw.Register(&fw.Property{
 		ID:          "C07",
 		Level:       "exploration",
-		Rule:        "case = (source format, destination format) cycling over all 7 x 6 pairs; a random start-ordered neutral cue list (1..6 cues on a 200 ms grid so that every format can express it exactly, overlaps, abutting cues, repeated texts, 1..2 lines) is rendered into a styled, metadata-bearing source document by the C01-C06 renderers (SRT runs with markup, WebVTT with regions/settings/voices/tags, TTML with styles/regions/attributes, SSA with styles/override blocks, STL at 25/30 fps with any display standard and programme-start offset, teletext TS with one page instance per cue), written to a file whose extension has random letter case, then converted through OpenFile + 0..4 operations (sync, fragment, unfragment, merge with a second document, optimize, order, linear correction last) + Write, or (every 7th round) through the CLI binary built from /repo (convert, sync, fragment, unfragment, merge, optimize, apply-linear-correction). Oracle: the composed executable specifications of C09-C15 applied to the neutral list, truncated to the destination's resolution (ms; cs for ssa/ass; frame for stl, +-1 ns), compared with the destination re-read through OpenFile: count, order, start, end, and text per line with all white space removed; an empty result must give the nothing-to-write error. distinct_nontrivial = distinct (document, destination, operations) cases.",
+		Rule:        "case = (source format, destination format) cycling over all 7 x 6 pairs; a random start-ordered neutral cue list (1..6 cues on a 200 ms grid so that every format can express it exactly, overlaps, abutting cues, repeated texts, 1..2 lines) is rendered into a styled, metadata-bearing source document by the C01-C06 renderers (SRT runs with markup, WebVTT with regions/settings/voices/tags, TTML with styles/regions/attributes, SSA with styles/override blocks, STL at 25/30 fps with any display standard and programme-start offset, teletext TS with one page instance per cue), written to a file whose extension has random letter case, then converted through OpenFile + 0..4 operations (sync, fragment, unfragment, merge with a second document, optimize, order, linear correction last) + Write, or (every 7th round) through the CLI binary built from /repo (convert, sync, fragment, unfragment, merge, optimize, apply-linear-correction). Oracle: the composed executable specifications of C09-C15 applied to the neutral list, truncated to the destination's resolution (ms; cs for ssa/ass; frame for stl, +-1 ns), compared with the destination re-read through OpenFile: count, order, start, end, and text per line with all white space removed; an empty result must give the nothing-to-write error. The last 12 (120) cases put two subtitle pages in one stream and select each through Options.Teletext.Page and through the CLI's -p flag (convert, merge). distinct_nontrivial = distinct (document, destination, operations) cases.",
 		Assumptions: []string{"times are non-negative (negative results of a linear correction are not compared); texts are drawn from an alphabet every format involved can represent (ASCII words; a few Latin letters when teletext is not involved; no '$')", "linear correction is only used as the last operation (its 1 us tolerance would make the outcome of a later fragment ambiguous)"},
-		Cases:       func(tier string) int64 { return tierN(tier, 42*7, 42*70) },
+		Cases:       func(tier string) int64 { return tierN(tier, 42*7, 42*70) + tierN(tier, 12, 120) },
 		Anchors:     []string{"Open", "OpenFile", "Subtitles.Write", "astisub/main.go", "all readers and writers"},
 		Run:         c07Run,
 	})
